@@ -340,6 +340,51 @@ def gen_preblock(rng):
     return base
 
 
+def gen_overblock(rng):
+    """non-pre-emptive schedules with one-server shifts feeding a small slow node: servers finishing in overtime keep
+    (blocked) customers while the next shift's server is already there, so several customers of one node are blocked
+    at once and must be unblocked in the order in which they became blocked"""
+    three = rng.random() < 0.3
+    N = 3 if three else 2
+    base = gen_tandem(rng, N=N, K=1)
+    base["prio"] = [0]
+    base["syscap"] = INF
+    m = rng.randint(2, 3)
+    nums = [rng.choice([1, 1, 1, 2]) for _ in range(m)]
+    ends, t = [], 0
+    for _ in range(m):
+        t += rng.randint(2, 4)
+        ends.append(t)
+    base["nodes"][0].update({"kind": "sched", "c": 0, "qcap": INF,
+                             "sched": {"nums": nums, "ends": ends, "pre": 0, "off": rng.choice([0, 0, 1])}})
+    for n in range(1, N):
+        base["nodes"][n].update({"kind": "std", "c": 1, "qcap": rng.choice([0, 0, 1])})
+    base["arrS"] = [[samples(rng, 1, 3, 2)]] + [[[]] for _ in range(N - 1)]
+    base["svcS"] = [[samples(rng, 2, 5, 2)]] + [[samples(rng, 4, 9, 2)] for _ in range(N - 1)]
+    if three:
+        base["route"] = [tm([[0, 2, 2], [0, 0, 0], [0, 0, 0]])]
+    else:
+        base["route"] = [tm([[0, 4], [0, 0]])]
+    base.pop("batchS", None)
+    base["T"] = rng.randint(20, 45)
+    return base
+
+
+def gen_trkccw(rng):
+    """trackers that count customers per class, with customers that change class several times during one wait"""
+    sc = gen_ppccw(rng) if rng.random() < 0.5 else gen_ccw(rng)
+    K = sc["K"]
+    for a in range(K):
+        for b in range(K):
+            if a != b and not sc["cct"][a][b] and rng.random() < 0.7:
+                sc["cct"][a][b] = samples(rng, 1, 3, 2)
+    for k in range(K):
+        sc["svcS"][0][k] = samples(rng, 3, 8, 2)
+    sc["tracker"] = rng.choice(["nodeclass", "nodeclass", "matrix", "system", "node"])
+    sc["observed"] = list(range(sc["N"]))
+    return sc
+
+
 def gen_reroute(rng):
     """'reroute' pre-emption (priority pre-emption or pre-emptive schedule): documented capacity exception"""
     K = 2
@@ -941,6 +986,8 @@ def gen_stopcount(rng):
 
 
 FAMILIES = {
+    "overblock": gen_overblock,
+    "trkccw": gen_trkccw,
     "preblock": gen_preblock,
     "slotren": gen_slotren,
     "ppccw": gen_ppccw,
